@@ -193,6 +193,7 @@ def replay(case):
     if case.get('mode') == 'vars':
         check_vars(case['cls'])
         check_freeze_propagation()
+        check_live_containers()
     else:
         refmodel.STRICT_UNORDERED[0] = False
         try:
@@ -315,6 +316,43 @@ def check_vars(only=None):
     return checked
 
 
+def check_live_containers():
+    """Raw List / Dict datasets share the caller's container; a copy() shares it as well: after a size-preserving
+    change of the container (elements swapped / replaced, a key taken out and put back) original and copy still agree."""
+    from lazy_dataset import core
+    checked = []
+    for freeze in (False, True):
+        lst = [('s', i) for i in range(4)]
+        o = core.ListDataset(lst)
+        c = o.copy(freeze=freeze)
+        lst[0], lst[1] = lst[1], lst[0]
+        lst[3] = ('s', 'replaced')
+        if list(o) != list(c) or len(o) != len(c) or [o[i] for i in range(4)] != [c[i] for i in range(4)]:
+            raise Violation('copy-differs|ListDataset.live-container',
+                            f'copy(freeze={freeze}) of a ListDataset, then the list was changed: original {list(o)}, '
+                            f'copy {list(c)}')
+        d = {f'k{i}': ('s', i) for i in range(4)}
+        o = core.DictDataset(d)
+        c = o.copy(freeze=freeze)
+        d['k1'] = d.pop('k1')
+        d['k2'] = ('s', 'replaced')
+        if list(o) != list(c) or list(o.keys()) != list(c.keys()) or list(o.items()) != list(c.items()):
+            raise Violation('copy-differs|DictDataset.live-container',
+                            f'copy(freeze={freeze}) of a DictDataset, then a key was re-inserted: original '
+                            f'{list(o.items())}, copy {list(c.items())}')
+        # ... and the other order: the container changes first, the copy is taken afterwards
+        d = {f'k{i}': ('s', i) for i in range(4)}
+        o = core.DictDataset(d)
+        d['k0'] = d.pop('k0')
+        c = o.copy(freeze=freeze)
+        if list(o) != list(c) or list(o.keys()) != list(c.keys()) or list(o.items()) != list(c.items()):
+            raise Violation('copy-differs|DictDataset.live-container',
+                            f'a key of the dict was re-inserted, then copy(freeze={freeze}): original '
+                            f'{list(o.items())}, copy {list(c.items())}')
+        checked.append(f'live-containers-freeze-{freeze}')
+    return checked
+
+
 def check_freeze_propagation():
     """copy(freeze=True) of EVERY stage class above a per-epoch reshuffle must iterate in one fixed order."""
     import lazy_dataset
@@ -414,6 +452,8 @@ def run_shard(tier, idx, nshards, rec, known):
                 rec.case({'mode': 'vars', 'cls': nm}, True, ['vars:' + nm])
             for nm in check_freeze_propagation():
                 rec.case({'mode': 'freeze', 'cls': nm}, True, ['freeze:' + nm])
+            for nm in check_live_containers():
+                rec.case({'mode': 'live', 'cls': nm}, True, ['live:' + nm])
         except Violation as v:
             if not known.match(v.sig):
                 o.violation = ({'mode': 'vars', 'cls': v.sig.split('|')[1].split('.')[0] if 'copy' in v.sig
